@@ -54,7 +54,7 @@ theorem pi_le_piHi : Real.pi ≤ ((piHi : ℚ) : ℝ) := by
 
 /-- a checked numeric relation holds over ℝ at the source's literals, within its class -/
 theorem numRelationOk_sound (hb : basePositive = true) (r : NumRelation) (h : numRelationOk r = true) :
-    |(closeRel r.lhs).eval sourceEnv / (closeRel r.rhs).eval sourceEnv - 1| ≤ ((r.cls.tol : ℚ) : ℝ) := by
+    |(closeRel r.lhs).eval sourceEnv / (closeRel r.rhs).eval sourceEnv - 1| ≤ ((r.tol : ℚ) : ℝ) := by
   unfold numRelationOk at h
   simp only [Bool.and_eq_true] at h
   obtain ⟨_, h⟩ := h
